@@ -53,7 +53,7 @@ ASSUME = [
     "inputs matched by a `finding` entry of known_findings.json (generic match on call / grid / failure / condition / class) "
     "are reported as KNOWN-FINDING, not as violations",
 ]
-RULE = ("one evaluation = one call of a public entry point; streams: locate_droplets without / with refinement, "
+RULE = ("one evaluation = one call of a public entry point; streams: corpus of the repaired defects (F2-F5, F10, F23), locate_droplets without / with refinement, "
         "locate_droplets_in_mask, refine_droplet on located candidates, rendering (5 classes, all compatible families, "
         "emulsions, dimension mismatch), polar_coordinates, tracking (both methods, +-grid, 3 cut-offs), tracker handles; "
         "grids: Cartesian 1-3 d, 1..6 cells per axis, every periodicity mask, isotropic / anisotropic spacing, polar, spherical, "
@@ -930,10 +930,40 @@ def record_hist(ctx, case, res, cls):
         ctx.count("render_class", case["droplet"]["cls"])
 
 
+def run_corpus(name: str):
+    """one replay of corpus/defects.py: None when the property holds, a description otherwise"""
+    import importlib.util
+    spec = importlib.util.spec_from_file_location("verif_corpus_defects", str(vlib.ROOT / "corpus" / "defects.py"))
+    mod = importlib.util.module_from_spec(spec)
+    spec.loader.exec_module(mod)
+    try:
+        return mod.ALL[name]()
+    except Exception as e:  # noqa
+        return f"replay {name} raised {type(e).__name__}: {e}"
+
+
+def corpus_names() -> list[str]:
+    """the replays of the defects repaired for this property (known_findings.json, kind = fixed)"""
+    names = []
+    for e in vlib.load_known():
+        if e.get("property") == "C09" and e.get("kind") == "fixed":
+            names += [w for w in str(e.get("replay", "")).replace(",", " ").split() if w.startswith("F")]
+    return sorted(set(names), key=lambda s: (int("".join(c for c in s if c.isdigit()) or 0), s))
+
+
 def check(ctx: vlib.Ctx) -> int:
     import droplets  # noqa: F401
     rng = random.Random(ctx.seed)
     ok = prove_with_fallback(ctx)
+    # corpus first: the repaired defects of this property must stay repaired
+    corpus_fails = []
+    for name in corpus_names():
+        msg = run_corpus(name)
+        ctx.case(["corpus", name])
+        ctx.count("stream", "corpus")
+        ctx.count("outcome", "ok" if msg is None else "corpus replay fails")
+        if msg is not None:
+            corpus_fails.append({"what": f"corpus replay {name} (repaired defect): {msg}", "input": {"corpus": name}})
     streams = [("locate", gen_locate_cases), ("mask", gen_mask_cases), ("refine", gen_refine_cases),
                ("render", gen_render_cases), ("polar", gen_polar_cases), ("track", gen_track_cases),
                ("tracker", gen_tracker_cases)]
@@ -998,7 +1028,9 @@ def check(ctx: vlib.Ctx) -> int:
         f = best[sig][1]
         ctx.violations.append({"what": f["what"], "input": f["input"], "found": True, "broken": ctx.broken[:3],
                                "same_signature_failures": sum(1 for g in fails if g["signature"] == sig)})
-    ctx.extra["failing_calls_total"] = len(fails)
+    for f in corpus_fails[:3]:
+        ctx.violations.append({**f, "found": True, "broken": ctx.broken[:3]})
+    ctx.extra["failing_calls_total"] = len(fails) + len(corpus_fails)
     return vlib.finish(ctx, "", TRUSTED, ASSUME, RULE)
 
 
@@ -1018,6 +1050,10 @@ def replay(path: str) -> int:
     obj = json.load(open(path))
     print(json.dumps(obj, indent=1)[:2500])
     inp = obj.get("input", {})
+    if "corpus" in inp:
+        msg = run_corpus(inp["corpus"])
+        print("property oracle on the current tree:", msg or "holds")
+        return 1 if msg else 0
     case = inp.get("call")
     if not case:
         return 0
